@@ -408,6 +408,10 @@ func exec(sv server, store string, cl call, watchdog time.Duration) (string, tim
 			defer cancel()
 		}
 		req := drive.Req{Store: store, Object: cl.q[0], Relation: cl.q[1], User: cl.q[2], Deadline: cl.deadline, Context: ctx}
+		if cl.api == "StreamedListObjects" {
+			// a slow client, so that deadlines and cancellations land while the stream is being sent
+			req.StreamSendDelay = 500 * time.Microsecond
+		}
 		var err error
 		var panicked string
 		switch cl.api {
